@@ -8,8 +8,8 @@
        next to the model branch it corresponds to.
    (b) [interp]: a small interpreter of such a tree over the model's own
        state ([ctl], [op] lists): every Call event IS the corresponding model
-       operation, every `if` is decided by the model condition supplied in
-       source order ([seq_guards]; for the end-of-file pass see [einterp]); a guard also names the
+       operation, every `if` is classified by what it reads and decided by
+       the corresponding model condition ([sinterp], [einterp]); it names the
        attributes (and the local `ret`) the source must have read for that
        test (since the last call / test; an assignment is not a read) - extra reads, logging and other harmless edits do not
        matter, a dropped, re-ordered or re-nested test or call does.
@@ -39,29 +39,34 @@ Fixpoint calls_only_list (l : list stm) : list stm :=
 
 Local Open Scope string_scope.
 
-(* _sequence_search, calls and tests only *)
-Definition expected_sequence_search : list stm :=
-  [ SEv (Call "start_run");              (* ret := c_start c *)
-    SIf                                  (* has_end sh && started k *)
-      [ SIf                              (*   match ret with Some _ *)
-          [ SEv (Call "results_remove"); (*     restart (cur k) *)
-            SEv (Call "def_reset") ]     (*     do_reset k *)
-          [ SEv (Call "end_run") ] ]     (*   | None => c_end c *)
-      [];
-    SIf                                  (* match ret1 with Some v *)
-      [ SIf                              (*   negb (started k1) *)
-          [ SEv (Call "def_start") ]     (*     do_start k1 *)
-          [ SEv (Call "def_stop");       (*     do_stop k1 *)
-            SIf                          (*     negb (has_end sh) *)
-              [ SEv (Call "def_start") ] (*       do_start k2 *)
-              [] ];
-        SEv (Call "results_add") ]       (*   ops1 ++ [Add .. v] *)
-      [ SIf                              (* | None: started k1 && has_body sh *)
-          [ SEv (Call "body_run");       (*     c_body c *)
-            SIf                          (*     Some v *)
-              [ SEv (Call "results_add") ] (*     ops1 ++ [Add RBody (cur k1) v] *)
-              [] ]
-          [] ] ].
+(* _sequence_search: how often each call occurs in the source text (in any
+   arrangement of ifs / early returns / helpers walked in place): the start
+   pattern, the end pattern and the body pattern are each run at ONE place;
+   one remove + reset (restart); one stop; two starts (first start, and
+   re-open without an end); results are added at two places (start/end
+   result, body result) *)
+Fixpoint calls_of (s : stm) : list string :=
+  let go := fix go (l : list stm) : list string :=
+              match l with [] => [] | x :: r => (calls_of x ++ go r)%list end in
+  match s with
+  | SEv (Call f) => [f]
+  | SIf a b => (go a ++ go b)%list
+  | SLoop b => go b
+  | STry b hs o f => (go b ++ go o ++ go f)%list
+  | _ => []
+  end.
+Fixpoint calls_of_list (l : list stm) : list string :=
+  match l with [] => [] | x :: r => (calls_of x ++ calls_of_list r)%list end.
+Definition count_call (f : string) (l : list stm) : nat :=
+  length (filter (String.eqb f) (calls_of_list l)).
+Definition expected_sequence_search_counts : list (string * nat) :=
+  [("start_run", 1); ("end_run", 1); ("body_run", 1);
+   ("results_remove", 1); ("def_reset", 1); ("def_stop", 1);
+   ("def_start", 2); ("results_add", 2)]%nat.
+Definition sequence_search_counts (t : list stm) : bool :=
+  forallb (fun fc => Nat.eqb (count_call (fst fc) t) (snd fc))
+          expected_sequence_search_counts
+  && Nat.eqb (length (calls_of_list t)) 10.
 
 (* ------------------------------------------------------ (b) interpreter *)
 Record ist := {
@@ -134,105 +139,12 @@ Definition do_ev (sh : shape) (c : cline) (e : ev) (s : ist) : option ist :=
   | _ => None
   end.
 
-(* a test: the attributes the source reads for it, and the model condition *)
-Definition guard := (list string * (ist -> bool))%type.
-
-
-Inductive ires := IOk (s : ist) (gs : list guard) (exited : bool) | IErr.
-
-Fixpoint count_ifs (s : stm) : nat :=
-  let go := fix go (l : list stm) : nat :=
-              match l with [] => O | x :: r => (count_ifs x + go r)%nat end in
-  match s with
-  | SIf a b => S (go a + go b)%nat
-  | SLoop b => go b
-  | _ => O
-  end.
-Fixpoint count_ifs_list (l : list stm) : nat :=
-  match l with [] => O | x :: r => (count_ifs x + count_ifs_list r)%nat end.
-
-(* guards are consumed in source order (pre-order of the `if`s); the tests
-   of a branch not taken are skipped *)
-Fixpoint interp (sh : shape) (c : cline) (s : stm) (st : ist)
-         (gs : list guard) : ires :=
-  let go := fix go (l : list stm) (st : ist) (gs : list guard) : ires :=
-    match l with
-    | [] => IOk st gs false
-    | x :: r =>
-        match interp sh c x st gs with
-        | IOk st1 gs1 false => go r st1 gs1
-        | other => other
-        end
-    end in
-  match s with
-  | SEv e =>
-      match do_ev sh c e st with Some st' => IOk st' gs false | None => IErr end
-  | SExit => IOk st gs true
-  | SIf a b =>
-      match gs with
-      | [] => IErr
-      | (need, cond) :: gs' =>
-          if reads_ok need (i_reads st) then
-            if cond st then
-              match go a (clear_reads st) gs' with
-              | IOk st1 gs1 ex =>
-                  IOk (clear_reads st1) (skipn (count_ifs_list b) gs1) ex
-              | IErr => IErr
-              end
-            else
-              match go b (clear_reads st) (skipn (count_ifs_list a) gs') with
-              | IOk st1 gs1 ex => IOk (clear_reads st1) gs1 ex
-              | IErr => IErr
-              end
-          else IErr
-      end
-  | _ => IErr
-  end.
-
-Fixpoint interp_list (sh : shape) (c : cline) (l : list stm) (st : ist)
-         (gs : list guard) : ires :=
-  match l with
-  | [] => IOk st gs false
-  | x :: r =>
-      match interp sh c x st gs with
-      | IOk st1 gs1 false => interp_list sh c r st1 gs1
-      | other => other
-      end
-  end.
-
 Definition ist0 (k : ctl) : ist :=
   {| i_k := k; i_ret := None; i_sid := O; i_role := RStart; i_ops := [];
      i_flt := []; i_reads := [] |}.
 
 Definition has_ret (s : ist) : bool :=
   match i_ret s with Some _ => true | None => false end.
-
-(* the tests of _sequence_search in source order, as the model decides them
-   (compare ctl_step_with in Model/Sequence.v) *)
-Definition seq_guards (sh : shape) : list guard :=
-  [ (* if seq_def.s_end and seq_def.started: *)
-    (["s_end"; "started"], fun s => has_end sh && started (i_k s));
-    (*     if ret:   (restart) *)
-    (["ret"], has_ret);
-    (* if ret: *)
-    (["ret"], has_ret);
-    (*     if not seq_def.started: *)
-    (["started"], fun s => negb (started (i_k s)));
-    (*         if seq_def.s_end is None: *)
-    (["s_end"], fun _ => negb (has_end sh));
-    (* elif seq_def.started and seq_def.s_body: *)
-    (["started"; "s_body"], fun s => started (i_k s) && has_body sh);
-    (*     if ret:   (body) *)
-    (["ret"], has_ret) ].
-
-(* the whole of _sequence_search for one line: every test used, no early
-   exit *)
-Definition run_seq_tree (t : list stm) (sh : shape) (k : ctl) (c : cline)
-  : option (ctl * list op) :=
-  match interp_list sh c t (ist0 k) (seq_guards sh) with
-  | IOk s [] false => Some (i_k s, i_ops s)
-  | _ => None
-  end.
 
 (* ---- _process_sequence_results, first loop, one definition.
 
@@ -367,6 +279,129 @@ Definition eof_outcomes (t : list stm) (sh : shape) (k : ctl)
   match first_loop_body t with
   | Some body => map eout (einterp_list sh body (ist0 k) [])
   | None => []
+  end.
+
+(* ---- _sequence_search, one line.
+
+   As for the end-of-file pass, the tests are NOT matched by position (the
+   function may be written with `elif`, with early returns, with the
+   start/stop part in a private helper walked in place ...).  An `if` is
+   classified by what it reads, and the side that is taken when the model's
+   condition holds is recognised by what the branches DO:
+     reads `ret`                       the match so far is Some / None.
+        None side: the branch that runs another pattern (end_run, body_run);
+        otherwise Some side: the branch that adds / removes results
+     reads `s_end` and `started`       has_end && started.  True side: the
+        branch with the restart (results_remove) or the end pattern
+     reads `s_body` (and `started`)    (started &&) has_body.  True side:
+        the branch that runs the body pattern; else the side that does NOT
+        leave the function
+     reads `started` only              started.  True side: the branch with
+        stop(); else the side without start()
+     reads `s_end` only                has_end.  False side: the branch with
+        the (second) start(); else the side that leaves
+   anything else is an error (fail closed). *)
+Definition has_any (fs : list string) (l : list stm) : bool :=
+  existsb (fun f => has_call_list f l) fs.
+
+(* [side ta tb xa xb] = which branch is the TRUE side: Some true = a,
+   Some false = b; ta/tb: the branch shows the true-side mark *)
+Definition pick (ta tb : bool) : option bool :=
+  if ta && negb tb then Some true
+  else if tb && negb ta then Some false
+  else None.
+Definition orelse_pick (p q : option bool) : option bool :=
+  match p with Some _ => p | None => q end.
+Definition flip (p : option bool) : option bool := option_map negb p.
+
+Inductive sres := SOk (s : ist) (exited : bool) | SErr.
+
+Definition sclear (o : sres) : sres :=
+  match o with SOk s ex => SOk (clear_reads s) ex | SErr => SErr end.
+
+Fixpoint sinterp (sh : shape) (c : cline) (s : stm) (st : ist) : sres :=
+  let go := fix go (l : list stm) (st : ist) : sres :=
+    match l with
+    | [] => SOk st false
+    | x :: r =>
+        match sinterp sh c x st with
+        | SOk st1 false => go r st1
+        | other => other
+        end
+    end in
+  match s with
+  | SEv e =>
+      match do_ev sh c e st with Some st' => SOk st' false | None => SErr end
+  | SExit => SOk st true
+  | SIf a b =>
+      let rd := i_reads st in
+      let st0 := clear_reads st in
+      let xa := has_exit_list a in
+      let xb := has_exit_list b in
+      (* (condition, which branch is its true side) *)
+      let r_ret := smem "ret" rd in
+      let r_end := smem "s_end" rd in
+      let r_st := smem "started" rd in
+      let r_body := smem "s_body" rd in
+      (* the test is about EXACTLY the attributes of its class *)
+      let decision : option (bool * bool) :=
+        if r_ret && (r_end || r_st || r_body) then None
+        else if r_body && r_end then None
+        else if smem "ret" rd then
+          option_map (pair (has_ret st))
+            (orelse_pick
+               (flip (pick (has_any ["end_run"; "body_run"] a)
+                           (has_any ["end_run"; "body_run"] b)))
+               (pick (has_any ["results_add"; "results_remove"] a)
+                     (has_any ["results_add"; "results_remove"] b)))
+        else if smem "s_end" rd && smem "started" rd then
+          option_map (pair (has_end sh && started (i_k st)))
+            (pick (has_any ["results_remove"; "end_run"] a)
+                  (has_any ["results_remove"; "end_run"] b))
+        else if smem "s_body" rd then
+          option_map
+            (pair (implb (smem "started" rd) (started (i_k st))
+                   && has_body sh))
+            (orelse_pick (pick (has_any ["body_run"] a)
+                               (has_any ["body_run"] b))
+                         (flip (pick xa xb)))
+        else if smem "started" rd then
+          option_map (pair (started (i_k st)))
+            (orelse_pick (pick (has_any ["def_stop"] a)
+                               (has_any ["def_stop"] b))
+                         (flip (pick (has_any ["def_start"] a)
+                                     (has_any ["def_start"] b))))
+        else if smem "s_end" rd then
+          option_map (pair (has_end sh))
+            (orelse_pick (flip (pick (has_any ["def_start"] a)
+                                     (has_any ["def_start"] b)))
+                         (pick xa xb))
+        else None in
+      match decision with
+      | Some (cond, a_is_true) =>
+          sclear (if Bool.eqb cond a_is_true then go a st0 else go b st0)
+      | None => SErr
+      end
+  | _ => SErr
+  end.
+
+Fixpoint sinterp_list (sh : shape) (c : cline) (l : list stm) (st : ist)
+  : sres :=
+  match l with
+  | [] => SOk st false
+  | x :: r =>
+      match sinterp sh c x st with
+      | SOk st1 false => sinterp_list sh c r st1
+      | other => other
+      end
+  end.
+
+(* the whole of _sequence_search for one line *)
+Definition run_seq_tree (t : list stm) (sh : shape) (k : ctl) (c : cline)
+  : option (ctl * list op) :=
+  match sinterp_list sh c t (ist0 k) with
+  | SOk s _ => Some (i_k s, i_ops s)
+  | SErr => None
   end.
 
 (* what the model does with one definition at end of file (seq_eof and
